@@ -444,3 +444,32 @@ class ColumnIndexBlocks(_BlocksContract):
 
 
 REGISTRY.append(ColumnIndexBlocks())
+
+
+# ---- C17 population proportion / std-err selection --------------------------------------
+class PopulationSelection(Contract):
+    """the population proportion is the proportion *within each date* when a dimension is
+    categorical-date (rows first), else the table proportion; likewise the std error"""
+
+    name = MOD + ":_PopulationProportions/_PopulationStandardError.blocks"
+    props = ("C17",)
+
+    def run(self, B, cfg):
+        DT = B.enum("enums:DIMENSION_TYPE")
+        types = [getattr(DT, n) for n in ("BINNED_NUMERIC", "CAT", "CAT_DATE", "CA_CAT", "CA_SUBVAR",
+                                           "DATETIME", "LOGICAL", "MR_SUBVAR", "NUM_ARRAY", "TEXT")]
+        for cls, names in (
+            ("_PopulationProportions", ("row_proportions", "column_proportions", "table_proportions")),
+            ("_PopulationStandardError", ("row_std_err", "column_std_err", "table_std_err")),
+        ):
+            sent = {n: object() for n in names}
+            som = B.stub("second_order_measures", **{n: B.stub(n, blocks=sent[n]) for n in names})
+            for rt in types:
+                for ct in types:
+                    dims = (B.stub("rows", dimension_type=rt), B.stub("cols", dimension_type=ct))
+                    obj = B.new("%s:%s" % (MOD, cls), dims, som, B.stub("cube_measures"))
+                    want = names[0] if rt == DT.CAT_DATE else (names[1] if ct == DT.CAT_DATE else names[2])
+                    B.check("%s:%s_x_%s" % (cls, rt.name, ct.name), obj.blocks is sent[want])
+
+
+REGISTRY.append(PopulationSelection())
